@@ -20,7 +20,7 @@ func init() {
 			{ID: "C17.store", Floor: 2, Run: c17Store, Doc: "SetTLSSecretContent only when crt != nil && key != nil; otherwise the sign error is returned."},
 			{ID: "C17.leader", Floor: 4, Run: c17Leader, Doc: "AcmeUpdate is called only under svcleader.isLeader(); inside, adds/removes only under LeaderElector.IsLeader() and HasAccount; svcAcmeClient.Add/AddAfter enqueue only under isLeader()."},
 			{ID: "C17.delta", Floor: 3, Run: c17Delta, Doc: "BuildAcmeStoragesAdd/Del call shrink() before building; shrink drops a name from both sets iff found && DeepEqual(add, del)."},
-			{ID: "C17.tracked", Floor: 5, Run: c01AcquireTracked, Doc: "Shared with C01: Storages().Acquire is followed by Ingress -> AcmeData tracking."},
+			{ID: "C17.tracked", Floor: 5, Run: c01AcquireTrackedBase, Doc: "Shared with C01: Storages().Acquire is followed by Ingress -> AcmeData tracking."},
 			{ID: "C17.decl", Floor: 2, Run: c17Decl, Doc: "syncIngressHTTP: a storage is acquired iff (AcmeTrackTLSAnn && tls-acme true || cert-signer == acme) && SecretName != \"\"; its name is namespace/secretName and it receives the tls block's hosts."},
 		},
 	})
